@@ -2,11 +2,11 @@
 package main
 
 import (
-	"sort"
 	"fmt"
 	"math"
 	"math/rand"
 	"runtime"
+	"sort"
 	"sync"
 	"sync/atomic"
 
@@ -493,6 +493,24 @@ func main() {
 				if got := slices.BinarySearchFunc(s, func(x int) bool { return x < t }); got != want {
 					e.Fail("BinarySearchFunc|result", map[string]any{"len": n, "block": blk, "target": t}, "BinarySearchFunc(len %d, runs of %d, x<%d) = %d, want %d", n, blk, t, got, want)
 				}
+			}
+		}
+	}
+	// astronomically long slices of zero-size elements: the midpoint computation must not overflow
+	for _, n := range []int{1<<62 + 1, math.MaxInt - 1, math.MaxInt} {
+		z := make([]struct{}, n)
+		for _, all := range []bool{true, false} {
+			want := 0
+			if all {
+				want = n
+			}
+			e.Input(true)
+			e.Call()
+			var got int
+			if p, m := enum.Catch(func() { got = slices.BinarySearchFunc(z, func(struct{}) bool { return all }) }); p {
+				e.Fail("BinarySearchFunc|panic", map[string]any{"len": n, "less_always": all}, "BinarySearchFunc on %d zero-size elements (less always %v) panicked: %s", n, all, m)
+			} else if got != want {
+				e.Fail("BinarySearchFunc|result", map[string]any{"len": n, "less_always": all}, "BinarySearchFunc on %d zero-size elements (less always %v) = %d, want %d", n, all, got, want)
 			}
 		}
 	}
